@@ -118,7 +118,9 @@ fn kind_of(k: usize) -> Kind {
         2 => Kind::ExplicitTe,
         3 => Kind::ExplicitTeOtherCase(true),
         4 => Kind::TeAndCl(7),
-        _ => Kind::TeTwoLinesAndCl(1000),
+        5 => Kind::TeTwoLinesAndCl(1000),
+        6 => Kind::ViaAwait100 { saw_100: true },
+        _ => Kind::ViaAwait100 { saw_100: false },
     }
 }
 
@@ -140,7 +142,8 @@ fn exec_small(t: &mut Tape, st: &mut Stats) -> Result<(), String> {
 fn exec_loop(t: &mut Tape, st: &mut Stats) -> Result<(), String> {
     const BUFS: [usize; 12] = [6, 7, 8, 16, 21, 22, 23, 261, 4101, 10_253, 10_254, 20_500];
     let api = if t.below(2) == 0 { Api::Flow } else { Api::Call };
-    let kind = kind_of(t.below(6));
+    let kind = kind_of(t.below(8));
+    let api = if kind.flow_only() { Api::Flow } else { api };
     let n = match t.weighted(&[3, 1]) {
         0 => *t.pick(&BUFS),
         _ => t.range(6, 12_000),
@@ -212,15 +215,19 @@ fn exec_loop(t: &mut Tape, st: &mut Stats) -> Result<(), String> {
 /// write on a fresh sender.
 fn exec_history(t: &mut Tape, st: &mut Stats) -> Result<(), String> {
     let api = if t.below(2) == 0 { Api::Flow } else { Api::Call };
-    let kind = match t.weighted(&[3, 1, 1, 2, 1, 1, 1]) {
+    let kind = match t.weighted(&[3, 1, 1, 2, 1, 1, 1, 1, 1, 1]) {
         0 => Kind::DefaultChunked,
         1 => Kind::ExplicitTe,
         2 => Kind::DefaultChunkedHttp10,
         3 => Kind::Sized(1_000_000),
         4 => Kind::ExplicitTeOtherCase(false),
         5 => Kind::TeAndCl(5),
-        _ => Kind::TeTwoLinesAndCl(1000),
+        6 => Kind::TeTwoLinesAndCl(1000),
+        7 => Kind::ViaAwait100 { saw_100: true },
+        8 => Kind::ViaAwait100 { saw_100: false },
+        _ => Kind::DespiteChunkedHeaderFirst,
     };
+    let api = if kind.flow_only() { Api::Flow } else { api };
     let mut s = Sender::new(api, kind)?;
     let nsteps = t.range(2, 10);
     if let Kind::Sized(total) = kind {
